@@ -322,9 +322,10 @@ class Ctx:
 
 def load_known_findings():
     p = os.path.join(VERIF, "known_findings.json")
-    if not os.path.exists(p):
-        return []
-    return json.load(open(p)).get("findings", [])
+    out = []
+    if os.path.exists(p):
+        out += json.load(open(p)).get("findings", [])
+    return out
 
 
 def write_if_changed(path, text):
